@@ -103,6 +103,7 @@ func (x *Exec) freshResults(sig *types.Signature, st *State, reach string) sval 
 		for _, f := range x.so.typeFacts(s, t, st.na) {
 			x.assume(reach, f)
 		}
+		x.markNamed(s, t)
 		return sval{t: s}
 	}
 	switch res.Len() {
@@ -294,6 +295,9 @@ func (x *Exec) applyContract(fr *frame, ct *Contract, callee *ssa.Function, args
 	post := x.contractEnv(ct, callee, args, argTypes, rs, rts, nst, old, fnv)
 	x.bindLets(ct, post)
 	for _, e := range ct.Ensures {
+		if e.Internal {
+			continue
+		}
 		t, err := post.trClause(e.Text)
 		if err != nil {
 			x.eng.specError(e, err)
@@ -575,6 +579,45 @@ func (x *Exec) frameFacts(ct *Contract, env *Env, ws *WriteSet, old, nw *State, 
 			x.oblige("frame", c, reach, f, "only declared locations of "+c+" are modified", token.NoPos)
 		} else {
 			x.assume(reach, f)
+		}
+	}
+}
+
+// frameCases checks the function's frame at every return site.
+func (x *Exec) frameCases(ct *Contract, posts []*Env, st0 *State) {
+	if len(posts) == 0 {
+		return
+	}
+	locs := x.parseModifies(ct, posts[0])
+	seen := map[string]bool{}
+	var comps []string
+	for _, r := range x.topRets {
+		for c := range r.st.m {
+			if !seen[c] {
+				seen[c] = true
+				comps = append(comps, c)
+			}
+		}
+	}
+	sort.Strings(comps)
+	for _, c := range comps {
+		if _, ok := x.so.comps[c]; !ok {
+			continue
+		}
+		var cases []oblCase
+		for _, r := range x.topRets {
+			o, n := st0.get(c), r.st.get(c)
+			if o == n {
+				continue
+			}
+			f := x.frameFormula(c, locs, o, n, st0.na, false)
+			if f == "" {
+				continue
+			}
+			cases = append(cases, oblCase{Guard: r.cond, Goal: f, Block: r.block})
+		}
+		if len(cases) > 0 {
+			x.obligeCases("frame", c, cases, "only declared locations of "+c+" are modified", token.NoPos)
 		}
 	}
 }
